@@ -2,6 +2,8 @@
 // callbacks, and the three export functions, from /repo's working tree.
 //   api gen bz SEED COUNT     busy-protocol scenarios (throw index -1; checks/c10.py derives one run per callback index)
 //   api gen bo SEED COUNT     busy-protocol scenarios with movable cells of orientation INVALID / UNKNOWN, mostly with a failing legalization
+//   api gen ep SEED COUNT     scenarios through EVERY public placement entry point of Circuit: place(effort), placeGlobal / legalize / placeDetailed
+//                             (effort) and (params[, callback]), ending by return or by an exception at every possible point (see runEP)
 //   api gen ex SEED COUNT     export-function cases (random internal vectors)
 //   api gen fr SEED COUNT     stage-run compositions for the dynamic frame check
 //   api run < cases
@@ -307,6 +309,88 @@ static std::string runBZ(IntReader &r) {
   return out.str();
 }
 
+// ---------------------------------------------------------------- EVERY public placement entry point of Circuit (stream "ep")
+// entry: 0 place(effort)  1 placeGlobal(effort)  2 legalize(effort)  3 placeDetailed(effort)      (arg = the effort, any int)
+//        4 placeGlobal(params[, callback])  5 legalize(params[, callback])  6 placeDetailed(params[, callback])   (arg = pvar of mkParams)
+struct EpOut { int cls = 0, ninv = 0, cbbad = 0; std::string msg = "-"; };
+static std::string msgTok(const std::string &m) { std::string s; for (char ch : m) s += std::isalnum((unsigned char)ch) ? ch : '_'; return s.empty() ? "-" : s.substr(0, 60); }
+static EpOut epCall(Circuit &c, int entry, int arg, int effort, int hascb, int throwk) {
+  EpOut o; std::string rej;     // what the rejection of the effort / of the parameter set says when nothing else is involved
+  if (entry <= 3) { try { ColoquinteParameters p(arg); (void)p; } catch (std::exception &e) { rej = e.what(); } }
+  else { try { mkParams(arg, effort).check(); } catch (std::exception &e) { rej = e.what(); } }
+  PlacementCallback cb = [&](PlacementStep) {
+    int k = o.ninv++;
+    // a structural modification attempted while the call is in progress must be refused
+    try { std::vector<Row> rows = c.rows(); c.setRows(rows); ++o.cbbad; } catch (std::exception &e) { if (classifySetter(e) != 1) ++o.cbbad; }
+    if (k == throwk) throw CbThrow{k};
+  };
+  std::optional<PlacementCallback> ocb; if (hascb) ocb = cb;
+  try {
+    switch (entry) {
+      case 0: c.place(arg); break;
+      case 1: c.placeGlobal(arg); break;
+      case 2: c.legalize(arg); break;
+      case 3: c.placeDetailed(arg); break;
+      case 4: c.placeGlobal(mkParams(arg, effort), ocb); break;
+      case 5: c.legalize(mkParams(arg, effort), ocb); break;
+      default: c.placeDetailed(mkParams(arg, effort), ocb); break;
+    }
+  } catch (CbThrow &e) { o.cls = 100 + e.k; }
+  catch (std::exception &e) { o.msg = msgTok(e.what()); o.cls = (!rej.empty() && rej == e.what()) ? 1 : 2; }
+  return o;
+}
+// what the effort overloads are documented to be: the parameter overloads of the three modelled entry points on ColoquinteParameters(effort)
+static EpOut epCompose(Circuit &r, int entry, int arg) {
+  EpOut o;
+  try {
+    ColoquinteParameters p(arg);
+    if (entry == 0) { r.placeGlobal(p); r.placeDetailed(p); } else if (entry == 1) r.placeGlobal(p); else if (entry == 2) r.legalize(p); else r.placeDetailed(p);
+  } catch (std::exception &e) { o.msg = msgTok(e.what()); std::string rej; try { ColoquinteParameters p(arg); (void)p; } catch (std::exception &e2) { rej = e2.what(); } o.cls = (!rej.empty() && rej == e.what()) ? 1 : 2; }
+  return o;
+}
+// the same operations on the circuit and on the reference copy that is not marked busy: "kind res chk refres equal"
+static void epOps(Circuit &c, Circuit &f, const std::vector<Op> &ops, std::ostringstream &out) {
+  out << ops.size();
+  for (auto &o : ops) { int r = execSetter(c, o), rr = execSetter(f, o); out << " " << o.kind << " " << r << " " << checkOk(c) << " " << rr << " " << (int)(dumpStr(c) == dumpStr(f)); }
+}
+static std::vector<Op> restoreOps(const Circuit &c0) {
+  std::vector<Op> ops;
+  { Op o; o.kind = 3; for (auto &r : c0.rows_) for (long long v : {(long long)r.minX, (long long)r.maxX, (long long)r.minY, (long long)r.maxY, (long long)(int)r.orientation}) o.a.push_back(v); ops.push_back(o); }
+  { Op o; o.kind = 5; for (bool b : c0.cellIsFixed_) o.a.push_back(b); ops.push_back(o); }
+  { Op o; o.kind = 6; for (bool b : c0.cellIsObstruction_) o.a.push_back(b); ops.push_back(o); }
+  { Op o; o.kind = 7; for (auto p : c0.cellRowPolarity_) o.a.push_back(polInt(p)); ops.push_back(o); }
+  return ops;
+}
+// EP entry arg effort hascb throwk pmode seed entry2 arg2 <rows cells> <nets>
+//  -> "EP cls1 msg1 inuse1 chk1 cbbad1 | cmpcls cmpeq | <post ops> | <restore ops> | cls2 msg2 refcls2 inuse2 chk2 eq2 | <final ops> | ninv1"
+//     cls: 0 returned, 1 effort / parameter set rejected, 2 another exception of the library (infeasible legalization ...), 100+k callback threw at k
+//     cmpcls cmpeq: entries 0-3 only (else -1 -1): outcome class of the composition of parameter overloads on ColoquinteParameters(effort), run on a
+//       copy taken before the call, and whether the two circuits are in the same state afterwards (full dump including the flags)
+//     ops: "n (kind res chk refres equal)*n": the operation on the circuit, Circuit::check() afterwards, the same operation on the REFERENCE (a copy
+//       of the circuit taken right after the first call, with the in-use flag cleared: a circuit of the same content that is not being placed), and
+//       whether both are in the same state afterwards.  post = genOps(pmode | 1): the seven guarded setters with acceptable and unacceptable arguments;
+//       restore = setRows / setCellIsFixed / setCellIsObstruction / setCellRowPolarity with the original values; final = the restore ops once more
+static std::string runEP(IntReader &r) {
+  int entry = r.nx(), arg = r.nx(), effort = r.nx(), hascb = r.nx(), throwk = r.nx(), pmode = r.nx(); long long seed = r.nx(); int entry2 = r.nx(), arg2 = r.nx();
+  TCircuit t = readRowsCells(r); readNets(r, t);
+  Circuit c = buildCircuit(t); const Circuit c0 = c; SplitMix g(seed);
+  std::ostringstream out;
+  EpOut cmp; cmp.cls = -1; int cmpeq = -1;
+  Circuit ref = c0;
+  if (entry <= 3) cmp = epCompose(ref, entry, arg);
+  EpOut o1 = epCall(c, entry, arg, effort, hascb, throwk);
+  if (entry <= 3) cmpeq = dumpStr(ref) == dumpStr(c);
+  out << "EP " << o1.cls << " " << o1.msg << " " << (int)c.isInUse_ << " " << checkOk(c) << " " << o1.cbbad << " | " << cmp.cls << " " << cmpeq << " | ";
+  Circuit f = c; f.isInUse_ = false;                       // the reference: same content, not being placed
+  epOps(c, f, genOps(pmode | 1, c, g, true), out); out << " | ";
+  epOps(c, f, restoreOps(c0), out); out << " | ";
+  EpOut o2 = epCall(c, entry2, arg2, 1 + (int)(seed % 3), 0, -1), r2 = epCall(f, entry2, arg2, 1 + (int)(seed % 3), 0, -1);
+  out << o2.cls << " " << o2.msg << " " << r2.cls << " " << (int)c.isInUse_ << " " << checkOk(c) << " " << (int)(dumpStr(c) == dumpStr(f)) << " | ";
+  epOps(c, f, restoreOps(c0), out);
+  out << " | " << o1.ninv;
+  return out.str();
+}
+
 // ---------------------------------------------------------------- export functions on arbitrary internal vectors
 static std::string runEX(IntReader &r) {
   int kind = r.nx(); TCircuit t = readRowsCells(r); Circuit c = buildCircuit(t);
@@ -382,6 +466,43 @@ int main(int argc, char **argv) {
         static const int pmodes[] = {9, 11, 27, 41, 1, 3};
         int smode = smodes[g.uni(0, 8)], pmode = pmodes[g.uni(0, 5)];
         printf("BZ %d %d %d %d -1 %d %d %lld %s %s\n", stage, hascb, pvar, effort, smode, pmode, (long long)g.uni(1, 1000000), showRowsCells(t).c_str(), showNets(t).c_str());
+      } else if (what == "ep") {
+        // scenarios through EVERY public placement entry point (see runEP): 30 % place(effort), 10 % each of the other three effort overloads, 40 % the
+        // three parameter overloads (80 % with a callback; checks/c10.py derives one run per callback index); 40 % of the efforts are rejected ones
+        // (0, 10, -1, 100, INT_MIN); 40 % of the circuits cannot be legalized (a movable cell wider than every row / over-full rows), so that
+        // place(effort) fails in its SECOND step; followed by the guarded setters, by a further call through any entry point, and by setters again
+        static const int entries[] = {0, 0, 0, 0, 0, 0, 1, 1, 2, 2, 3, 3, 4, 4, 4, 5, 5, 6, 6, 6};
+        static const int badEffort[] = {0, 10, -1, 100, std::numeric_limits<int>::min()};
+        int entry = entries[g.uni(0, 19)], entry2 = g.coin(30) ? 0 : (int)g.uni(0, 6);
+        GenOpts o; o.nets = true; o.utilLo = 20; o.utilHi = 85; o.maxCells = 8; o.turned = false;
+        auto inGlobalDomain = [](const TCircuit &t) {      // quantifier of C06 / C07: every row at least four row-heights wide, a movable cell of positive area
+          bool pos = false; for (auto &c : t.cells) if (!c[6] && c[2] > 0 && c[3] > 0) pos = true;
+          for (auto &r : t.rows) if (r[1] - r[0] < 4 * (r[3] - r[2])) return false;
+          return pos; };
+        TCircuit t = genCircuit(g, o);
+        bool wantGlobal = entry == 0 || entry == 1 || entry == 4 || entry2 == 0 || entry2 == 1 || entry2 == 4;
+        for (int tries = 0; wantGlobal && !inGlobalDomain(t) && tries < 40; ++tries) { o.splitrows = tries < 20; t = genCircuit(g, o); }
+        if (!inGlobalDomain(t)) { if (entry == 0) entry = 3; if (entry == 1) entry = 2; if (entry == 4) entry = 5; if (entry2 == 0) entry2 = 3; if (entry2 == 1) entry2 = 2; if (entry2 == 4) entry2 = 5; }
+        long long wmax = 0, rh = t.rows[0][3] - t.rows[0][2]; for (auto &r : t.rows) wmax = std::max(wmax, r[1] - r[0]);
+        auto plain = [](const std::array<long long, 8> &c) { return !c[6]; };
+        auto fresh = [&](long long w) { static const int os[4] = {0, 1, 4, 5}; auto &r = t.rows[g.uni(0, t.rows.size() - 1)];
+          t.cells.push_back({r[0] + g.uni(-2, 2), r[2] + g.uni(-1, 1), w, rh, os[g.uni(0, 3)], 0, 0, 1}); };
+        int kind = (int)g.uni(0, 9);
+        if (kind >= 8) {           // one movable cell wider than every row
+          std::vector<size_t> pl; for (size_t i = 0; i < t.cells.size(); ++i) if (plain(t.cells[i])) pl.push_back(i);
+          if (pl.empty()) { fresh(1); pl.push_back(t.cells.size() - 1); }
+          auto &cl = t.cells[pl[g.uni(0, pl.size() - 1)]]; cl[2] = wmax + g.uni(1, 5); cl[3] = rh;
+        } else if (kind >= 6) {    // over-full: row-high cells as wide as the widest row, one more than there are rows
+          size_t cnt = 0; for (auto &c : t.cells) if (plain(c) && c[3] == rh) { c[2] = wmax; ++cnt; }
+          while (cnt < t.rows.size() + 1) { fresh(wmax); ++cnt; }
+        }
+        int arg, effort = (int)g.uni(1, 9), hascb = 0;
+        if (entry <= 3) arg = g.coin(40) ? badEffort[g.uni(0, 4)] : (int)g.uni(1, entry <= 1 ? 4 : 9);
+        else { arg = g.coin(60) ? 0 : g.coin(50) ? (int)g.uni(1, 6) : (int)g.uni(kPvarBoundaryLo, kPvarBoundaryHi); hascb = g.coin(80); }
+        int arg2 = entry2 <= 3 ? (g.coin(30) ? badEffort[g.uni(0, 4)] : (int)g.uni(1, 3)) : (g.coin(75) ? 0 : (int)g.uni(1, 6));
+        static const int pmodes[] = {1, 1, 3, 5, 17};
+        printf("EP %d %d %d %d -1 %d %lld %d %d %s %s\n", entry, arg, effort, hascb, pmodes[g.uni(0, 4)], (long long)g.uni(1, 1000000), entry2, arg2,
+               showRowsCells(t).c_str(), showNets(t).c_str());
       } else if (what == "ex") {
         GenOpts o; o.maxCells = 10; TCircuit t = genCircuit(g, o);
         for (auto &cl : t.cells) if (g.coin(30)) cl[6] = 1;            // more fixed cells, also first / last / consecutive
@@ -425,7 +546,7 @@ int main(int argc, char **argv) {
     IntReader r; r.v = vh_ints(line.substr(3));
     if (sigsetjmp(vh_jmp, 1)) { printf("SIGNAL %s\n", vh_signame()); fflush(stdout); continue; }
     try {
-      std::string res = line[0] == 'B' ? runBZ(r) : line[0] == 'E' ? runEX(r) : runFR(r);
+      std::string res = line[0] == 'B' ? runBZ(r) : line.compare(0, 3, "EP ") == 0 ? runEP(r) : line[0] == 'E' ? runEX(r) : runFR(r);
       printf("%s\n", res.c_str());
     } catch (std::exception &ex) { printf("THROW-OUTER %s\n", ex.what()); }
     catch (CbThrow &) { printf("THROW-OUTER callback exception escaped\n"); }
